@@ -33,6 +33,7 @@ def parseQ (toks : List String) (fuel : Nat) : Option (List QOp) :=
     | "neg" :: r => (parseQ r fuel).map (QOp.neg :: ·)
     | "clear" :: r => (parseQ r fuel).map (QOp.clear :: ·)
     | "rt" :: r => parseQ r fuel
+    | "fb" :: b :: r => (parseQ r fuel).map (QOp.load (h b) :: ·)
     | _ => none
 
 /-- run a history on the abstract state; `none` if some partial sum leaves the quire's range (outside C04) -/
